@@ -31,10 +31,14 @@ ASSUMPTIONS = ["simulated schedulers; scancel exits 0 even on failure and report
 SITUATIONS = ["never", "pending", "running", "finished_ok", "finished_bad", "cancelled"]
 
 
+QUICK_BUDGET = {"cases": 400, "deadline_s": 100, "case_timeout_s": 120, "floors": {"cancel_runs": 380, "cancel_cmds_checked": 500, "faults_injected": 100, "followup_runs": 250, "pool_cancels": 4}}
+THOROUGH_FACTOR = 18  # thorough = the same workload with 18x the cases (floors scale along)
+
+
 def budget(tier):
-    if tier == "thorough":
-        return {"cases": 5000, "deadline_s": 800, "case_timeout_s": 180, "floors": {"cancel_runs": 4800, "cancel_cmds_checked": 8000, "faults_injected": 1500, "followup_runs": 3000, "pool_cancels": 40}}
-    return {"cases": 400, "deadline_s": 100, "case_timeout_s": 120, "floors": {"cancel_runs": 380, "cancel_cmds_checked": 500, "faults_injected": 100, "followup_runs": 250, "pool_cancels": 4}}
+    from ..core import scaled_budget
+
+    return scaled_budget(QUICK_BUDGET, tier, THOROUGH_FACTOR, noscale=('pool_cancels',))
 
 
 def gen_case(rng, idx, tier):
